@@ -38,6 +38,13 @@ followed by edits, {"save": null} and {"load": null}.  The current file (what nu
 server on, the file oracle (d) takes the loaded content from) is computed by last_file() from the run directory's files --
 NOT from the reply's error texts: a failed load / save does not change it.  A successful save whose target does not exist
 afterwards is kind "saved_file_missing".
+File dimension "written by the tools, then edited by appending" (trees appended:<c>:<option>:<value>, appended_trees()): the start-up
+file AND the hand-written file a `load` names are the file the real server saves for a configuration c (all defaults; each
+single option of every value type user-set) PLUS one appended assignment line re-assigning one option (every option, every
+value of its alphabet, `# CONFIG_B is not set` for bool n) -- `echo CONFIG_X=7 >> sdkconfig`.  The alphabet edits that option,
+undoes the appended line (set back to c's value / reset) alone and together with `save`, loads the other appended file and
+undoes its line, saves / loads null: the file the save must produce is then a strict PREFIX of the file on disk, and oracle
+(b') (a fresh server on the file the request saved == live state) decides.  Sigs carry `construct`.
 Only mismatches that the LAST request introduced are reported (those already present after the prefix were reported
 when the prefix was visited), so `op` in the signature is the triggering request class.
 """
@@ -66,7 +73,10 @@ RULE = (
     "not set`) in front of options that get user values (trees pragma, pragmasaved, markers); failed loads (missing file, "
     "directory, path under a regular file) and failed saves (missing directory, path under a regular file), alone or with a "
     "`set`, followed by edits and null-path saves / loads (tree paths); these four small trees run to depth 3 (quick) in "
-    "every protocol pair; a fresh "
+    "every protocol pair; start-up and loaded files that are the tool-written file of a configuration (all defaults / one option "
+    "of each value type user-set) plus ONE appended line re-assigning one option (every configuration x option x value), with "
+    "requests that edit the option, undo the appended line (alone, with save, after loading the other such file) and save / "
+    "load null (trees appended:*, depth 2 in protocol (3,3) quick, depth 3 in every protocol pair thorough); a fresh "
     "real server per history; states merged on (server configuration incl. user values, client model, files on disk, "
     "last-used file); sub-trees whose depth-1 state equals the initial state or that of an earlier first request are "
     "explored there. `states` is the sum of per-sub-tree distinct states. distinct_nontrivial = distinct (tree, protocols, "
@@ -90,6 +100,9 @@ ASSUMPTIONS = [
     "permission-denied targets are not generated (the checks run as root)",
     "prompt-hidden options: one switch hides all types at once (the evaluator's per-type branches are independent; what is "
     "varied is the type, the request interleaving and where the value came from -- request, start-up file, loaded file)",
+    "appended-line files: exactly one appended line, a plain assignment of an option that is not a choice member (two `=y` "
+    "members of one choice in a file is C02's subject); quick: bool / int / hex / string with two values each, thorough adds "
+    "float, an option behind a dependency and a third value; the tool-written prefix is what the server under test saves",
     "menu ids are obtained by running with cwd = tree directory and --kconfig Kconfig, as the repository's tests do",
 ]
 
@@ -146,7 +159,7 @@ COMMON_TAIL = [
 ]
 
 
-def trees() -> Dict[str, dict]:
+def trees(tier: str = "thorough") -> Dict[str, dict]:
     T: Dict[str, dict] = {}
 
     with open(os.path.join(common.REPO_ROOT, "test", "kconfserver", "Kconfig")) as f:
@@ -671,6 +684,114 @@ def trees() -> Dict[str, dict]:
     }
     selfcheck_prompt_hidden(T)
     selfcheck_pragma_titles(T)
+    T.update(appended_trees(tier))
+    return T
+
+
+
+# --------------------------------------------------------------------------------------------------
+# start-up / loaded files "written by the tools, then edited by appending": tree dimension `appended`
+# --------------------------------------------------------------------------------------------------
+
+# (name, type, default literal, [(JSON value a request sets, the assignment line of the sdkconfig format)]); the first
+# value is the default.  quick uses the first two values of the first four options, thorough everything.
+AP_OPTS = [
+    ("B", "bool", "y", [(True, "CONFIG_B=y"), (False, "# CONFIG_B is not set")]),
+    ("X", "int", "3", [(3, "CONFIG_X=3"), (5, "CONFIG_X=5"), (7, "CONFIG_X=7")]),
+    ("H", "hex", "0x10", [(16, "CONFIG_H=0x10"), (47, "CONFIG_H=0x2f"), (48, "CONFIG_H=0x30")]),
+    ("S", "string", '"s"', [("s", 'CONFIG_S="s"'), ("t", 'CONFIG_S="t"'), ("", 'CONFIG_S=""')]),
+    ("F", "float", "0.5", [(0.5, "CONFIG_F=0.5"), (1.5, "CONFIG_F=1.5"), (2.5, "CONFIG_F=2.5")]),
+    ("D", "int", "1", [(1, "CONFIG_D=1"), (4, "CONFIG_D=4"), (6, "CONFIG_D=6")]),  # depends on B
+]
+_AP_CACHE: Dict[str, Dict[str, dict]] = {}
+
+
+def appended_trees(tier: str) -> Dict[str, dict]:
+    """One tree entry per (configuration c, option o, value v): the start-up file is the file THE TOOLS WRITE for c (obtained
+    from the real server: the edit that makes c, then `save`) plus ONE appended assignment line re-assigning o to v, the way a
+    user edits an sdkconfig with `echo CONFIG_X=7 >> sdkconfig`.  c ranges over: everything at its default, and each single
+    option user-set to its first non-default value; (o, v) over every option and every value of its alphabet (a line that
+    repeats the value c already has included).  The hand-written file (`load`) is the file of ANOTHER (c2, o2, v2).
+    The request alphabet edits o (every value, reset), undoes the appended line (set o back to c's value, or reset it when c
+    leaves it at its default) alone and in one request with `save`, loads the other appended file and undoes ITS line,
+    saves / loads null.  Oracles unchanged: (b') a fresh server on the file the request saved equals the live state."""
+    if tier in _AP_CACHE:
+        return _AP_CACHE[tier]
+    quick = tier == "quick"
+    opts = [(n, t, d, vals[:2] if quick else vals) for n, t, d, vals in (AP_OPTS[:4] if quick else AP_OPTS)]
+    nodes = []
+    for n, t, d, _ in opts:
+        nodes.append(Cfg(n, t, prompt=n.lower(), defaults=[(L(d), None)], depends=[S("B")] if n == "D" else []))
+    files = kgen.render(Program(children=nodes))
+    # configurations: {} (all default) and {o: first non-default value}
+    confs: List[Dict[str, Any]] = [{}] + [{n: vals[1][0]} for n, _, _, vals in opts]
+    saved = None
+    if not os.environ.get("MCK_DEBUG"):
+        saved = os.dup(2)
+        common.silence_stderr()
+    try:
+        written = []
+        for c in confs:
+            run = server.run(files, [req_line(3, {"set": c, "save": None})], sdkconfig="", default_version=3)
+            text = run.files.get("sdkconfig")
+            if run.exc is not None or not text or not text.endswith("\n"):
+                raise AssertionError(f"C14: cannot obtain the tool-written file of configuration {c}: {run.exc} {text!r}")
+            written.append(text)
+    finally:
+        if saved is not None:
+            os.dup2(saved, 2)
+            os.close(saved)
+    variants = []  # (ci, option, value index)
+    for ci in range(len(confs)):
+        for n, _, _, vals in opts:
+            for vi in range(len(vals)):
+                variants.append((ci, n, vi))
+    vals_of = {n: vals for n, _, _, vals in opts}
+
+    def text_of(var) -> str:
+        ci, n, vi = var
+        return written[ci] + vals_of[n][vi][1] + "\n"
+
+    def undo(var) -> dict:
+        ci, n, _ = var
+        return {"set": {n: confs[ci][n]}} if n in confs[ci] else {"reset": [n]}
+
+    step = len(vals_of[opts[1][0]]) * 2 + 1  # another configuration AND (mostly) another option
+    T: Dict[str, dict] = {}
+    for i, var in enumerate(variants):
+        ci, n, vi = var
+        other = variants[(i + step + len(variants) // 2) % len(variants)]
+        alpha: List[dict] = [{"set": {n: v}} for v, _ in vals_of[n]]
+        alpha += [
+            {"reset": [n]},
+            {"reset": ["all"]},
+            {"save": None},
+            {"save": SNAP},
+            {"load": None},
+            {"load": HAND},
+            {"load": ORIG},
+            dict(undo(var), save=None),
+            dict(undo(other), load=HAND, save=None),
+            {"reset": ["all"], "save": None},
+        ]
+        if other[1] != n:
+            alpha.append(undo(other))
+        seen, uniq = set(), []
+        for a in alpha:
+            key = json.dumps(a, sort_keys=True)
+            if key not in seen:
+                seen.add(key)
+                uniq.append(a)
+        T[f"appended:{ci}:{n}:{vi}"] = {
+            "files": files,
+            "sdk0": text_of(var),
+            "hand": text_of(other),
+            "alphabet": uniq,
+            "pairs": [(3, 3)] if quick else PAIRS,
+            "depth": 2 if quick else 3,
+            "construct": "tool_written_file_plus_appended_reassignment",
+        }
+    _AP_CACHE[tier] = T
     return T
 
 
@@ -751,11 +872,11 @@ def items(tier: str, seed: int):
     # itself (C02 states the same and does not generate them either). MCK_C14_WITH_MARKERS=1 adds it (informational).
     skip = [x for x in os.environ.get("MCK_C14_SKIP_TREES", "").split(",") if x] + ([] if os.environ.get("MCK_C14_WITH_MARKERS") == "1" else ["markers"])  # development only (e.g. judging a seeded
     # change while a tree alarms on the unchanged repository); unset in every recorded run
-    for name, t in trees().items():
-        if name in skip:
+    for name, t in trees(tier).items():
+        if name in skip or name.split(":")[0] in skip:
             continue
-        for dv, cv in PAIRS:
-            depth = depth_of(tier, dv, cv, bool(t.get("small")))
+        for dv, cv in t.get("pairs", PAIRS):
+            depth = t["depth"] if "depth" in t else depth_of(tier, dv, cv, bool(t.get("small")))
             alpha = [a for a in t["alphabet"] if cv >= 3 or "reset" not in a or a["reset"] in (["all"], ["NOPE", "no-such-menu-1"])]
             for first in range(len(alpha)):
                 out.append(
